@@ -1,7 +1,7 @@
 """C04 — cell access is bounds-safe, endian-correct and local (static rules over MIR facts)."""
 import re
 from mir import fmt, walk, callee_names, strip_refs
-from flow import enum_paths, TRY_BRANCH, FROM_RESIDUAL_PREFIX, PathLimit
+from flow import dom_guards, enum_paths, TRY_BRANCH, FROM_RESIDUAL_PREFIX, PathLimit
 from summ import Evaluator, Ref, Adt, Unknown, Panic, SeqVal, deref
 from common import Inconclusive
 
@@ -243,6 +243,47 @@ def run(facts, rep, ctx):
         if cat in ("typed_write", "bytes_write", "ann_write"):
             viol = None
             unk = None
+            # on the graph (loops included): once a call has been handed `&mut self` or a mutable handle into it, no
+            # error exit may still be reachable -- a write that fails part-way has already changed something
+            err_blocks = set()
+            for bi_, si_, st_ in b.stmts():
+                if st_["k"] == "assign" and st_["lhs"]["l"] == 0 and not st_["lhs"]["p"] and st_["rv"]["k"] == "agg" and st_["rv"].get("variant") == "Err":
+                    err_blocks.add(bi_)
+            for bb_, t_ in b.calls():
+                if (callee_names(t_)[0] or "").endswith("FromResidual::from_residual") and not t_["dest"]["p"] and t_["dest"]["l"] == 0:
+                    err_blocks.add(bb_)
+            for bb_, t_ in b.calls():
+                nm_ = callee_names(t_)[1] or callee_names(t_)[0] or ""
+                sh_ = nm_.rsplit("::", 1)[-1]
+                if sh_ in BORROW_ONLY or not t_["args"] or t_.get("t") is None:
+                    continue
+                a0 = b.term_of_operand(t_["args"][0])
+                whole_self = a0[0] == "ref" and a0[2] and strip_refs(a0)[0] == "param" and strip_refs(a0)[1] == 1 and nm_.startswith(ARCHIVE + "::")
+                handle = root_field(a0, False)[0]
+                if not (whole_self or handle):
+                    continue
+                after = b.reachable_blocks(t_["t"])
+                late = sorted(e_ for e_ in err_blocks if e_ in after and e_ != bb_)
+                if late and cat in ("typed_write", "bytes_write"):
+                    # the call's own failure is an error exit right after it: only exits that need a *further* step count
+                    direct = set()
+                    nxt = t_["t"]
+                    # blocks that only test this call's result and propagate its error
+                    res_l = t_["dest"]["l"] if not t_["dest"]["p"] else None
+                    own = set()
+                    for e_ in late:
+                        conds = [c_ for (a_, s_, c_) in dom_guards(b, e_)]
+                        own_fail = False
+                        for (a_, s_, c_) in dom_guards(b, e_, skip_try=False):
+                            term_ = c_[0]
+                            if term_[0] == "discr" and any(x[0] == "call" and len(x) > 3 and x[3] == bb_ for x in walk(term_)):
+                                own_fail = True
+                        if own_fail:
+                            own.add(e_)
+                    later_fail = [e_ for e_ in late if e_ not in own]
+                    looped = bb_ in after          # the call can run again after having succeeded once
+                    if later_fail or (looped and own):
+                        viol = "%s can fail after %s has already modified the archive (a partial write is left behind)" % (short, sh_)
             for p in paths:
                 err = is_err_term(p.ret)
                 muts = mutation_events(p)
